@@ -36,6 +36,8 @@ def configs(tier, seed):
     for nsub in list(range(5, 18)) + ([33] if tier == "thorough" else []):
         cfgs.append({"aw": 8, "dw": 8, "align": 0,
                      "subs": [{"aw": 1 + (i % 3 == 0), "name": None if i % 4 == 1 else f"m{i}", "addr": None} for i in range(nsub)]})
+    # explicit addresses in descending order, the last one at address 0
+    cfgs.append({"aw": 8, "dw": 8, "align": 0, "subs": [{"aw": 4, "name": "hi", "addr": 0x40}, {"aw": 3, "name": None, "addr": 0x20}, {"aw": 4, "name": "lo", "addr": 0x0}]})
     # an add() refused for a taken window name (k % 4 == 2) / the same subordinate added twice (k % 4 == 3), mid-history and at the end
     for n, where in ((2, [2]), (3, [3]), (4, [2, 3]), (7, [3, 6, 7])):
         cfgs.append({"aw": 7, "dw": 8, "align": 0, "refused_before": where, "subs": [{"aw": 1 + i % 2, "name": f"n{i}", "addr": None} for i in range(n)]})
@@ -179,9 +181,13 @@ def check_config(ctx, cfg):
     addr = z3.ZeroExt(1, f0.inp(bus.addr))
     ranges = {id(win): (start, stop) for win, name, (start, stop, ratio) in bus.memory_map.windows()}
     matches = []
-    for sb in subs:
+    for k_, sb in enumerate(subs):
         start, stop = ranges[id(sb.memory_map)]
         stop = min(stop, start + (1 << sb.memory_map.addr_width))
+        # a window DECLARED at an explicit address sits there (also at address 0), and every window spans its subordinate's full width
+        want_addr = cfg["subs"][k_].get("addr")
+        ctx.prove("strobe_route", z3.BoolVal((want_addr is None or start == want_addr) and stop - start == 1 << sb.memory_map.addr_width
+                                             and start % (1 << sb.memory_map.addr_width) == 0))
         m = z3.And(z3.UGE(addr, z3.BitVecVal(start, W)), z3.ULT(addr, z3.BitVecVal(stop, W)))
         matches.append(m)
         ctx.prove("strobe_route", z3.And(f0.val(sb.r_stb) == z3.If(z3.And(m, f0.inp(bus.r_stb) == 1), one, zero),
